@@ -110,7 +110,7 @@ def model_tie(ctx, n, have_model):
             rank_positions(r2)
         if r2["obs"] != r["obs"]:
             ctx.report("fwd-sched:" + hashlib.sha1(p["src"].encode()).hexdigest()[:12], "counterexample",
-                       "real check() differs between two pop orders of the forward work list (oracle F)",
+                       "real check() differs between two interpreter runs (the second with an injected pop order of the forward work list, oracle F)",
                        {"program": p["src"], "default_order": r["obs"], "injected_order": r2["obs"],
                         "replay": "props/C10/impl_front.py with fsched null vs \"ridx\" / [\"rand\", seed]"})
         usable.append((p, r))
